@@ -35,6 +35,18 @@ CHECKS = {
          "Fault injection by generated writer scripts (accept k bytes of a vectored write for every k, Interrupted / Ok(0) / hard error at every call index, flush errors) on all record shapes; bytes received must be exactly the reference lines (or complete lines + a prefix on a hard error); sink level: every later entry reaches every (tee'd) stream exactly once, no panic.",
          "Trusts the scripted writer/stream (harness-owned), reference = same entry through a fresh formatter and a perfect writer. The BackgroundQueue half of the sink clause is decided under C01/C05.",
          "DESIGN.md §2 C16"),
+ "C11": ("proptest value multisets + exhaustive bucket-boundary sweep; run-length pairing oracle; differential atomic vs non-atomic; re-aggregation fixpoint",
+         "Generated-input search: value multisets built on the 976-bucket layout (every boundary and neighbour exhaustively), repeated observations up to 2^40 occurrences, u64/f64/Duration sources with unit conversion, 1-8 concurrent recorders; oracle = count conservation, per-observation error bound by sorted run-length pairing, bit-identical atomic/non-atomic outputs, exact sort-and-merge output, re-aggregation fixpoint.",
+         "Trusts the harness' own bucket-layout computation (only used to aim inputs) and f64 arithmetic for the bound; concurrent add_value interleavings are sampled natively.",
+         "DESIGN.md §2 C11"),
+ "C18": ("exhaustive enumeration of op sequences (model-based) + proptest long sequences; manual clock; reference model of accumulated spans",
+         "Model-based: all well-formed stopwatch operation sequences up to length 5 (quick) / 6 (thorough) and random ones to length 200 with 8 live owned guards over a manually advanced clock, the reported duration compared with a 10-line reference model after every operation; timers and timestamps (all epoch formats, all time-source precedence levels) likewise.",
+         "Trusts the manual clock (own Time impl, cross-run with the in-tree fake) and exact Duration arithmetic.",
+         "DESIGN.md §2 C18"),
+ "C19": ("type-level enumeration of all 435 convertible unit pairs x proptest magnitudes; exact integer scale table oracle",
+         "Every ordered convertible pair (3x3 time, 20x20 bit/byte(/s), None->26) is instantiated at type level and driven with generated observation lists through WithUnit, Distribution, Mean, Option, round trips and the #[metrics(unit=..)] attribute; oracle = own exact integer scale table (4 ulp), unit names, occurrence preservation, validation errors for strings / lying values.",
+         "Trusts the scale table written from the CloudWatch unit definitions; overflow/underflow of intermediates is out of scope (not rounding).",
+         "DESIGN.md §2 C19"),
 }
 
 BUILT = set(CHECKS)
